@@ -112,3 +112,516 @@ func ruleHTTPNeverRebuildsErrors(c *chk.Ctx) {
 		c.Exists("PROV.httperr", nil, "error constructions in jhttp", 0, "none")
 	}
 }
+
+// Rules added after the eleventh round.
+
+// ruleMemberNamesExact (C02): the member parser compares member names as they
+// were sent: no case folding between the key of the decoded object and the
+// switch that tells the protocol's members from unknown ones ("Method" is an
+// unknown field, not the method).
+func ruleMemberNamesExact(c *chk.Ctx) {
+	n := 0
+	for _, f := range pkgFuncs(c, c.M.Pkg) {
+		if ir.RecvNamed(f) != c.M.Jmessage || f.Signature.Params().Len() != 1 || f.Signature.Params().At(0).Type().String() != "[]byte" {
+			continue
+		}
+		n++
+		bad := ""
+		c.P.ExtInstrs(f, func(ins ssa.Instruction) {
+			call, ok := ins.(*ssa.Call)
+			if !ok {
+				return
+			}
+			if ir.IsCallTo(&call.Call, "strings.ToLower", "strings.ToUpper", "strings.ToTitle", "strings.EqualFold", "bytes.EqualFold", "bytes.ToLower", "bytes.ToUpper", "strings.Title") {
+				bad = ir.CalleeName(&call.Call) + " at " + c.P.Pos(call.Pos())
+			}
+		})
+		c.Check(bad == "", "TABLE.members", f, "member names compared as sent", f.Pos(), "no case folding in the member parser", "the member parser folds case ("+bad+"): a member such as \"Method\" or \"ID\", which the protocol does not define, would be taken for the real one instead of being reported as an unknown field with -32600 — the handler would run for an invalid request")
+	}
+	if n == 0 {
+		c.Undecided("TABLE.members", nil, "member parser", 0, "member parser not found")
+	}
+}
+
+// ruleHeaderSplitAtFirstColon (C12): a header line is cut at its first colon
+// only; the value may contain further colons (a date, host:port).
+func ruleHeaderSplitAtFirstColon(c *chk.Ctx) {
+	n := 0
+	for _, f := range chanMethods(c, "Recv") {
+		c.P.ExtInstrs(f, func(ins ssa.Instruction) {
+			call, ok := ins.(*ssa.Call)
+			if !ok || len(call.Call.Args) < 2 {
+				return
+			}
+			if sep, isK := constString(call.Call.Args[1]); !isK || sep != ":" {
+				return
+			}
+			switch {
+			case ir.IsCallTo(&call.Call, "strings.Split", "strings.SplitAfter", "strings.FieldsFunc"):
+				n++
+				c.Fail("PAIR.hdrloop", f, "header line cut at the first colon", call.Pos(), "the header line is split at every colon: a value that contains one (a date, host:port, a content-type parameter) would make a legal header block unreadable, and the rest of the frame would be misread as further frames")
+			case ir.IsCallTo(&call.Call, "strings.SplitN", "strings.SplitAfterN"):
+				n++
+				k, isC := ir.ConstInt(call.Call.Args[2])
+				c.Check(isC && k == 2, "PAIR.hdrloop", f, "header line cut at the first colon", call.Pos(), "SplitN(line, \":\", 2)", "the header line is not split into exactly name and value at the first colon")
+			case ir.IsCallTo(&call.Call, "strings.Cut", "strings.Index", "strings.IndexByte"):
+				n++
+				c.Pass("PAIR.hdrloop", f, "header line cut at the first colon", call.Pos(), "cut at the first colon")
+			}
+		})
+	}
+	if n == 0 {
+		c.Undecided("PAIR.hdrloop", nil, "header line split", 0, "no split of a header line at ':' found in a Recv method")
+	}
+}
+
+// ruleStubDecodesTranslated (C15/C16): the array stub hands the raw parameter
+// bytes to its translation step and to nothing else: every decode that follows
+// works on the translated form (an array already rewritten to an object).
+func ruleStubDecodesTranslated(c *chk.Ctx) {
+	n := 0
+	for _, f := range pkgFuncs(c, c.M.HandlerPkg) {
+		if f.Parent() != nil || ir.BaseName(f) != "UnmarshalJSON" || len(f.Params) != 2 {
+			continue
+		}
+		// the stub with a translation step: a private method of the same receiver, given the
+		// data, returning ([]byte, error)
+		data := f.Params[1]
+		var translate *ssa.Call
+		ir.Instrs(f, func(ins ssa.Instruction) {
+			call, ok := ins.(*ssa.Call)
+			if !ok {
+				return
+			}
+			g := call.Call.StaticCallee()
+			if g == nil || !c.P.InRepo[g] || ir.Exported(g) || g.Signature.Results().Len() != 2 || g.Signature.Results().At(0).Type().String() != "[]byte" {
+				return
+			}
+			for _, a := range call.Call.Args {
+				if a == ssa.Value(data) {
+					translate = call
+				}
+			}
+		})
+		if translate == nil {
+			continue
+		}
+		n++
+		other := ""
+		for _, r := range *data.Referrers() {
+			if r == ssa.Instruction(translate) {
+				continue
+			}
+			if _, isDbg := r.(*ssa.DebugRef); isDbg {
+				continue
+			}
+			other = c.P.Pos(r.Pos())
+		}
+		c.Check(other == "", "WHO.strictstub", f, "stub decodes the translated parameters", f.Pos(), "the raw bytes go to the translation step only; every decode uses its result", "the array stub uses the raw parameter bytes after translating them (at "+other+"): an array is then decoded as it stands instead of as the object it was rewritten to, so the positional form of the parameters is refused (or mapped differently) on that branch")
+	}
+	if n == 0 {
+		c.Exists("WHO.strictstub", nil, "array stub translation step", 0, "no stub hands its data to a private translation function (translation written in place)")
+	}
+}
+
+// ruleArgumentTypeNilGuarded (C15): FuncInfo.Argument is nil for a function
+// without a parameter; every method call on it sits under a != nil test of it.
+func ruleArgumentTypeNilGuarded(c *chk.Ctx) {
+	fiT, _ := c.M.HandlerPkg.Pkg.Scope().Lookup("FuncInfo").(*types.TypeName)
+	if fiT == nil {
+		c.Undecided("TABLE.check", nil, "FuncInfo", 0, "not found")
+		return
+	}
+	isArg := func(v ssa.Value) bool {
+		_, fv, ok := ir.FieldRead(ir.NormCell(v))
+		return ok && fv != nil && fv.Name() == "Argument"
+	}
+	n := 0
+	for _, f := range pkgFuncs(c, c.M.HandlerPkg) {
+		ir.Instrs(f, func(ins ssa.Instruction) {
+			call, ok := ins.(*ssa.Call)
+			if !ok || !call.Call.IsInvoke() || !isArg(call.Call.Value) {
+				return
+			}
+			n++
+			recv := call.Call.Value
+			guarded := false
+			// (a function literal built on a branch where the type is known to be there carries
+			// that knowledge with it: the variable it captured is never reassigned)
+			conds := append([]ir.Cond{}, ir.CondsAt(call.Block())...)
+			for fn := f; fn.Parent() != nil; fn = fn.Parent() {
+				ir.Instrs(fn.Parent(), func(i2 ssa.Instruction) {
+					if mc, isMC := i2.(*ssa.MakeClosure); isMC && mc.Fn == ssa.Value(fn) {
+						conds = append(conds, ir.CondsAt(mc.Block())...)
+					}
+				})
+			}
+			for _, cd := range ir.NormConds(conds) {
+				// (the test may have been given a name: hasArg := arg != nil)
+				if nv := ir.NormCell(cd.V); nv != cd.V {
+					for _, n2 := range ir.NormConds([]ir.Cond{{V: nv, Truth: cd.Truth}}) {
+						if x, eq, isNC := ir.NilCompare(n2.V); isNC && eq != n2.Truth && (x == recv || ir.SameValue(x, recv) || sameFieldRead(x, recv) || (isArg(x) && ir.NormCell(x) == ir.NormCell(recv))) {
+							guarded = true
+						}
+					}
+				}
+				if x, eq, isNC := ir.NilCompare(cd.V); isNC && eq != cd.Truth && (x == recv || ir.SameValue(x, recv) || sameFieldRead(x, recv) || (isArg(x) && ir.NormCell(x) == ir.NormCell(recv))) {
+					guarded = true
+				}
+			}
+			c.Check(guarded, "TABLE.check", f, "argument type used only where there is one", call.Pos(), "the method call on FuncInfo.Argument is under a != nil test of it", "FuncInfo.Argument."+call.Call.Method.Name()+" is called without knowing that the function has a parameter: for a function that takes only a context the type is nil, so wrapping it (e.g. with strict fields on) would panic instead of producing a handler")
+		})
+	}
+	if n == 0 {
+		c.Exists("TABLE.check", nil, "uses of FuncInfo.Argument", 0, "no method call on the argument type")
+	}
+}
+
+// ruleNamesOwnSlice (C17): a Names method builds its own list: it never stores
+// into a slice it obtained from another Namer (which may keep that slice).
+func ruleNamesOwnSlice(c *chk.Ctx) {
+	n := 0
+	for _, f := range pkgFuncs(c, c.M.HandlerPkg) {
+		if f.Parent() != nil || ir.BaseName(f) != "Names" || f.Signature.Recv() == nil {
+			continue
+		}
+		n++
+		bad := ""
+		c.P.ExtInstrs(f, func(ins ssa.Instruction) {
+			st, ok := ins.(*ssa.Store)
+			if !ok {
+				return
+			}
+			ia, ok := st.Addr.(*ssa.IndexAddr)
+			if !ok {
+				return
+			}
+			for _, src := range c.P.Sources(ia.X) {
+				if call, isCall := src.(*ssa.Call); isCall && call.Call.IsInvoke() && call.Call.Method.Name() == "Names" {
+					bad = c.P.Pos(st.Pos())
+				}
+			}
+		})
+		c.Check(bad == "", "EFFECT.pure", f, "Names writes only its own list", f.Pos(), "no store into a slice returned by another Namer", "Names stores into the slice another assigner's Names returned (at "+bad+"): an assigner that keeps its name list would have it rewritten, so the names reported the next time differ from the methods that are dispatched")
+	}
+	if n == 0 {
+		c.Undecided("EFFECT.pure", nil, "Names methods", 0, "no Names method found in the handler package")
+	}
+}
+
+// ruleSendFailureReported (C05): an entry point of the client that transmits
+// reports a failed transmission: past the call of the transmitting function, nil
+// is returned only where that function's error is known to be nil.
+func ruleSendFailureReported(c *chk.Ctx) {
+	var sendFn *ssa.Function
+	for _, s := range chanSites(c, "Send") {
+		if s.owners["client"] && s.instr.Parent().Parent() == nil && !ir.Exported(s.instr.Parent()) {
+			sendFn = s.instr.Parent()
+		}
+	}
+	if sendFn == nil {
+		c.Exists("ERR.propagate", nil, "client transmit function", 0, "no private top-level client function holds the Send (sent in place or through a helper type)")
+		return
+	}
+	// the transmitting function itself does not ask whether the caller's context is still
+	// alive: a request is sent whatever the context says at that moment (it governs the wait
+	// for the reply, through the watcher) — the HTTP bridge forwards a body whose sender has
+	// already gone, and its notifications must still be delivered
+	asks := ""
+	ir.Instrs(sendFn, func(ins ssa.Instruction) {
+		call, ok := ins.(*ssa.Call)
+		if !ok || !call.Call.IsInvoke() || !strings.HasSuffix(call.Call.Value.Type().String(), "context.Context") {
+			return
+		}
+		if m := call.Call.Method.Name(); m == "Err" || m == "Done" {
+			asks = c.P.Pos(call.Pos())
+		}
+	})
+	c.Check(asks == "", "ERR.propagate", sendFn, "transmission does not depend on the context's state", sendFn.Pos(), "the transmitting function never asks its context for Err or Done", "the client's transmitting function consults the context (at "+asks+") before sending: a request whose context has already ended is dropped instead of transmitted — through the HTTP bridge, a body whose sender has disconnected would run no handler and its notifications would be lost")
+	n := 0
+	for _, f := range pkgFuncs(c, c.M.Pkg) {
+		if f.Parent() != nil || !ir.Exported(f) || ir.RecvNamed(f) != c.M.Client {
+			continue
+		}
+		nres := f.Signature.Results().Len()
+		if nres == 0 || f.Signature.Results().At(nres-1).Type().String() != "error" {
+			continue
+		}
+		var call *ssa.Call
+		ir.Instrs(f, func(ins ssa.Instruction) {
+			if cl, ok := ins.(*ssa.Call); ok && cl.Call.StaticCallee() == sendFn {
+				call = cl
+			}
+		})
+		if call == nil {
+			continue
+		}
+		n++
+		isErr := func(x ssa.Value) bool { return ir.IsExtractOf(x, call, sendFn.Signature.Results().Len()-1) }
+		bad := ""
+		for _, r := range ir.Returns(f) {
+			if !ir.InstrDominates(call, r) {
+				continue
+			}
+			for _, w := range returnedWays(r, nres-1) {
+				if !ir.IsNilConst(w.val) {
+					continue
+				}
+				if !ir.ProvesNil(w.conds, isErr) && !ir.ProvesNil(ir.CondsAt(r.Block()), isErr) {
+					bad = c.P.Pos(r.Pos())
+				}
+			}
+		}
+		c.Check(bad == "", "ERR.propagate", f, "a failed transmission is reported", call.Pos(), "after the transmitting call, nil is returned only on its err == nil edge", "the return at "+bad+" reports success although the transmission may have failed (e.g. the error is filtered as uninteresting): an operation on a stopped client would look as if it had been sent")
+	}
+	if n == 0 {
+		c.Exists("ERR.propagate", nil, "client entry points that transmit", 0, "no exported client method calls the transmitting function directly")
+	}
+}
+
+// ruleQuotedBytesAnyPadding (C19): a single-quoted query value is base64 with
+// or without padding: the padding is trimmed and the unpadded alphabet decodes
+// the rest (the padded decoder refuses unpadded input).
+func ruleQuotedBytesAnyPadding(c *chk.Ctx) {
+	f := c.M.Func(c.M.JhttpPkg, "ParseQuery")
+	if f == nil {
+		c.Undecided("TABLE.query", nil, "ParseQuery", 0, "not found")
+		return
+	}
+	n := 0
+	c.P.ExtInstrs(f, func(ins ssa.Instruction) {
+		call, ok := ins.(*ssa.Call)
+		if !ok || !ir.IsCallTo(&call.Call, "(*encoding/base64.Encoding).DecodeString") || len(call.Call.Args) != 2 {
+			return
+		}
+		n++
+		raw := false
+		if g := globalLoad(call.Call.Args[0]); g != nil && strings.HasPrefix(g.Name(), "Raw") {
+			raw = true
+		}
+		trimmed := false
+		for _, src := range c.P.SourcesStop(call.Call.Args[1], func(v ssa.Value) bool {
+			cl, isCall := v.(*ssa.Call)
+			return isCall && ir.IsCallTo(&cl.Call, "strings.TrimRight", "strings.TrimSuffix")
+		}) {
+			if cl, isCall := src.(*ssa.Call); isCall && ir.IsCallTo(&cl.Call, "strings.TrimRight") {
+				if k, isK := constString(cl.Call.Args[1]); isK && k == "=" {
+					trimmed = true
+				}
+			}
+		}
+		c.Check(raw && trimmed, "TABLE.query", f, "quoted bytes decode with or without padding", call.Pos(), "padding trimmed, then the unpadded base64 alphabet", "the single-quoted value is not decoded as 'padding stripped, then unpadded base64': values whose padding is missing (or present) would be refused, and a well-formed URL answered with 400")
+	})
+	if n == 0 {
+		c.Undecided("TABLE.query", f, "base64 decode", f.Pos(), "no base64 decode found in the query typing")
+	}
+}
+
+// ruleParamsShapeOnEncodedBytes (C13): the client decides whether parameters are
+// an array or object (or null) by looking at their encoding, not at their Go
+// kind: wherever the marshalled bytes are returned, a test of those very bytes
+// has been passed. (A time.Time is a struct and encodes as a string.)
+func ruleParamsShapeOnEncodedBytes(c *chk.Ctx) {
+	n := 0
+	for _, f := range pkgFuncs(c, c.M.Pkg) {
+		if f.Parent() != nil || ir.Exported(f) || f.Signature.Results().Len() != 2 || f.Signature.Results().At(0).Type().String() != "[]byte" && !strings.HasSuffix(f.Signature.Results().At(0).Type().String(), "json.RawMessage") {
+			continue
+		}
+		if len(f.Params) == 0 {
+			continue
+		}
+		// (the client's own marshaller: a method of the client, or a function only it calls)
+		if ir.RecvNamed(f) != c.M.Client {
+			sites := c.P.Callers(f)
+			onlyClient := len(sites) > 0 && f.Signature.Recv() == nil
+			for _, s2 := range sites {
+				if ir.RecvNamed(ir.Root(s2.Caller)) != c.M.Client {
+					onlyClient = false
+				}
+			}
+			if !onlyClient {
+				continue
+			}
+		}
+		var marshal *ssa.Call
+		ir.Instrs(f, func(ins ssa.Instruction) {
+			if call, ok := ins.(*ssa.Call); ok && ir.IsCallTo(&call.Call, "encoding/json.Marshal") {
+				if prm, isParam := ir.NormCell(call.Call.Args[0]).(*ssa.Parameter); isParam {
+					if _, isIface := prm.Type().Underlying().(*types.Interface); isIface && prm.Type().String() != "error" {
+						marshal = call
+					}
+				}
+			}
+		})
+		if marshal == nil {
+			continue
+		}
+		n++
+		onBytes := func(cs []ir.Cond) bool {
+			for _, cd := range cs {
+				var uses func(v ssa.Value, depth int) bool
+				uses = func(v ssa.Value, depth int) bool {
+					if depth > 4 || v == nil {
+						return false
+					}
+					if ir.IsExtractOf(v, marshal, 0) {
+						return true
+					}
+					switch x := v.(type) {
+					case *ssa.Call:
+						for _, a := range x.Call.Args {
+							if uses(a, depth+1) {
+								return true
+							}
+						}
+					case *ssa.BinOp:
+						return uses(x.X, depth+1) || uses(x.Y, depth+1)
+					case *ssa.UnOp:
+						return uses(x.X, depth+1)
+					case *ssa.IndexAddr:
+						return uses(x.X, depth+1)
+					case *ssa.ChangeType:
+						return uses(x.X, depth+1)
+					case *ssa.Convert:
+						return uses(x.X, depth+1)
+					case *ssa.Slice:
+						return uses(x.X, depth+1)
+					case *ssa.Extract:
+						return uses(x.Tuple, depth+1)
+					case *ssa.Phi:
+						for _, e := range x.Edges {
+							if uses(e, depth+1) {
+								return true
+							}
+						}
+					}
+					return false
+				}
+				if uses(cd.V, 0) {
+					return true
+				}
+			}
+			return false
+		}
+		// (some branch of the function is decided by the encoded bytes themselves; which returns
+		// it governs is left to the tests — what is excluded is a shape test that never looks
+		// at the encoding)
+		bad := ""
+		tested := false
+		ir.Instrs(f, func(ins ssa.Instruction) {
+			if iff, ok := ins.(*ssa.If); ok && onBytes([]ir.Cond{{V: iff.Cond, Truth: true}}) {
+				tested = true
+			}
+		})
+		if !tested {
+			bad = c.P.Pos(marshal.Pos())
+		}
+		c.Check(bad == "", "TABLE.params", f, "parameter shape checked on the encoded bytes", marshal.Pos(), "a branch of the marshalling function is decided by the encoded bytes (first byte / null)", "the parameters marshalled at "+bad+" are handed on without any test of the encoded bytes: a value whose Go kind is struct, slice or array but whose encoding is a string or number (time.Time, []byte, *big.Int) would be sent as parameters, and the request no longer parses as a valid request")
+	}
+	if n == 0 {
+		// (the marshalling written out in place where the request is built: not this rule's shape)
+		c.Exists("TABLE.params", nil, "client parameter marshaller", 0, "no private function marshalling an interface parameter into ([]byte, error)")
+	}
+}
+
+// ruleNoSharedEncoderBuffers (C13, C10): the root package keeps no pool or
+// package-level buffer: what an encoder returns is freshly built for that call,
+// so the bytes handed to a channel's Send are not rewritten by the next encode.
+func ruleNoSharedEncoderBuffers(c *chk.Ctx) {
+	shared := ""
+	for _, m := range c.M.Pkg.Members {
+		g, ok := m.(*ssa.Global)
+		if !ok {
+			continue
+		}
+		pt, isPtr := g.Type().(*types.Pointer)
+		if !isPtr {
+			continue
+		}
+		var holds func(t types.Type, depth int) bool
+		holds = func(t types.Type, depth int) bool {
+			if depth > 4 {
+				return false
+			}
+			switch t.String() {
+			case "bytes.Buffer", "sync.Pool", "strings.Builder", "bufio.Writer", "bufio.Reader":
+				return true
+			}
+			switch u := t.Underlying().(type) {
+			case *types.Pointer:
+				return holds(u.Elem(), depth+1)
+			case *types.Slice:
+				return holds(u.Elem(), depth+1)
+			case *types.Array:
+				return holds(u.Elem(), depth+1)
+			case *types.Chan:
+				return holds(u.Elem(), depth+1)
+			case *types.Struct:
+				for i := 0; i < u.NumFields(); i++ {
+					if holds(u.Field(i).Type(), depth+1) {
+						return true
+					}
+				}
+			}
+			return false
+		}
+		if holds(pt.Elem(), 0) && shared == "" {
+			shared = g.Name() + " at " + c.P.Pos(g.Pos())
+		}
+	}
+	c.Check(shared == "", "PROV.encoder", nil, "no shared encoder buffers", 0, "no package-level pool, buffer or builder in the root package", "the root package keeps a pool or buffer at package level ("+shared+"): bytes an encoder returned can be rewritten by a later encode while a channel still holds them — a record handed to Send is then no longer one complete JSON message")
+}
+
+// ruleCallbackWrappersGuarded (C04): an option accessor that wraps a user
+// callback in a function of its own hands that wrapper out only where the
+// callback is set: the users of the accessor test its result for nil to decide
+// whether there is a callback at all, and a wrapper around an unset callback
+// would be called.
+func ruleCallbackWrappersGuarded(c *chk.Ctx) {
+	n := 0
+	for _, f := range pkgFuncs(c, c.M.Pkg) {
+		if f.Parent() != nil || f.Signature.Recv() == nil || len(f.Params) == 0 {
+			continue
+		}
+		rn := ir.RecvNamed(f)
+		if rn == nil || !strings.HasSuffix(rn.Obj().Name(), "Options") {
+			continue
+		}
+		for _, r := range ir.Returns(f) {
+			if len(r.Results) != 1 {
+				continue
+			}
+			mc, ok := ir.ReturnResult(r, 0).(*ssa.MakeClosure)
+			if !ok {
+				continue
+			}
+			for _, b := range mc.Bindings {
+				// the captured callback: an option field read directly, or a local holding it
+				v := b
+				if al, isAl := b.(*ssa.Alloc); isAl {
+					if sts := ir.CellStores(al); len(sts) == 1 {
+						v = sts[0].Val
+					}
+				}
+				if _, isSig := v.Type().Underlying().(*types.Signature); !isSig {
+					continue
+				}
+				base, fv, isF := ir.FieldRead(v)
+				if !isF || fv == nil || ir.NormCell(base) != ssa.Value(f.Params[0]) {
+					continue
+				}
+				n++
+				guarded := false
+				for _, cd := range ir.NormConds(ir.CondsAt(r.Block())) {
+					if x, eq, isNC := ir.NilCompare(cd.V); isNC && eq != cd.Truth && (x == v || sameFieldRead(x, v) || ir.NormCell(x) == v || sameFieldRead(ir.NormCell(x), v)) {
+						guarded = true
+					}
+				}
+				c.Check(guarded, "TABLE.default", f, "callback wrapper only for a set callback", r.Pos(), "the wrapper around "+fv.Name()+" is returned on the "+fv.Name()+" != nil edge", "the accessor returns a function that calls "+fv.Name()+" without having tested that the callback is set: its users take a non-nil result for \"there is a callback\", so the first inbound message of that kind would call a nil function (a panic on the delivery goroutine, with the lock held)")
+			}
+		}
+	}
+	if n == 0 {
+		c.Exists("TABLE.default", nil, "callback wrappers in option accessors", 0, "none")
+	}
+}
